@@ -211,7 +211,7 @@ func propC13Writers(t *rapid.T) {
 // ---- scripted sinks
 
 type c13Outcome struct {
-	N    int // -1 = len(p), -2 = len(p)-1, otherwise the literal count (clamped)
+	N    int // -1 = len(p), -2 = len(p)-1, -3 = len(p)+3 (a sink that frames the payload and reports bytes on the wire), otherwise the literal count (clamped)
 	Err  bool
 	Sync bool // Sync fails
 }
@@ -237,6 +237,8 @@ func (s *c13Sink) result(i int, l int) (int, error) {
 		if n < 0 {
 			n = 0
 		}
+	case n == -3:
+		n = l + 3
 	case n > l:
 		n = l
 	}
@@ -361,7 +363,9 @@ func c13CheckMultiVia(t interface{ Fatalf(string, ...any) }, routes []string, si
 	}
 	// the list handed to NewMultiWriteSyncer stays the caller's: it may contain syncers that discard (which a
 	// combinator might want to leave out) and is used again afterwards - for a second combinator, for shutdown
+	hasDiscard := false
 	if c13MultiDiscardAt >= 0 && len(ws) > 0 {
+		hasDiscard = true
 		at := c13MultiDiscardAt % (len(ws) + 1)
 		ws = append(ws[:at:at], append([]zapcore.WriteSyncer{zapcore.AddSync(io.Discard)}, ws[at:]...)...)
 	}
@@ -390,6 +394,9 @@ func c13CheckMultiVia(t interface{ Fatalf(string, ...any) }, routes []string, si
 			if err != nil {
 				wantErrs = append(wantErrs, err.Error())
 			}
+		}
+		if hasDiscard && len(p) < wantN {
+			wantN = len(p) // the discarding member reports len(p), which only over-reporting sinks exceed
 		}
 		route := "Write"
 		if c < len(routes) {
@@ -472,7 +479,7 @@ func propC13Multi(t *rapid.T) {
 			sinks[i].name = "disk"
 		}
 		for c := 0; c < calls; c++ {
-			o := c13Outcome{N: rapid.SampledFrom([]int{-1, -1, -1, 0, 1, -2}).Draw(t, "count"), Err: rapid.IntRange(0, 2).Draw(t, "err") == 0, Sync: rapid.IntRange(0, 3).Draw(t, "syncErr") == 0}
+			o := c13Outcome{N: rapid.SampledFrom([]int{-1, -1, -1, 0, 1, -2, -1, -1, 0, 1, -2, -3}).Draw(t, "count"), Err: rapid.IntRange(0, 2).Draw(t, "err") == 0, Sync: rapid.IntRange(0, 3).Draw(t, "syncErr") == 0}
 			sinks[i].outs = append(sinks[i].outs, o)
 			sig += fmt.Sprintf("%d%v%v,", o.N, o.Err, o.Sync)
 		}
